@@ -24,13 +24,13 @@ theorem replicate_push {α} (n : Nat) (e : α) (s : List α) :
 
 /-! ### frame lemmas: what a single operation cannot touch -/
 
-theorem produce_frame (env : Env H S V) (g : Gen S V) (now : Int) :
+theorem produce_frame (env : Env H S V) (g : Gen S V) (now : TimeV) :
     (g.produce env now).2.saved = g.saved ∧ (g.produce env now).2.kind = g.kind ∧
     (g.produce env now).2.last = g.last ∧ (g.produce env now).2.lastTime = g.lastTime := by
   unfold Gen.produce
   cases g.kind <;> simp
 
-theorem produceValue_saved (env : Env H S V) (d : Bool) (now : Int) (g : Gen S V) (f : Bool) :
+theorem produceValue_saved (env : Env H S V) (d : Bool) (now : TimeV) (g : Gen S V) (f : Bool) :
     (produceValue env d now g f).2.saved = g.saved ∧ (produceValue env d now g f).2.kind = g.kind := by
   unfold produceValue
   split
@@ -39,7 +39,7 @@ theorem produceValue_saved (env : Env H S V) (d : Bool) (now : Int) (g : Gen S V
     · simp [produce_frame]
     · simp
 
-theorem readGen_saved (env : Env H S V) (d : Bool) (now : Int) (pt : PType) (g : Gen S V) (f : Bool) :
+theorem readGen_saved (env : Env H S V) (d : Bool) (now : TimeV) (pt : PType) (g : Gen S V) (f : Bool) :
     (readGen env d now pt g f).2.saved = g.saved ∧ (readGen env d now pt g f).2.kind = g.kind := by
   unfold readGen
   split
@@ -47,14 +47,14 @@ theorem readGen_saved (env : Env H S V) (d : Bool) (now : Int) (pt : PType) (g :
   · exact produceValue_saved env d now g f
 
 /-- a generation that raises leaves the cached value and time untouched -/
-theorem readGen_raised (env : Env H S V) (d : Bool) (now : Int) (pt : PType) (g : Gen S V) (f : Bool) (e : Exc)
+theorem readGen_raised (env : Env H S V) (d : Bool) (now : TimeV) (pt : PType) (g : Gen S V) (f : Bool) (e : Exc)
     (h : g.failsNow = some e) (hc : willCall d now g f = true) :
     (readGen env d now pt g f).1 = .raised e ∧ (readGen env d now pt g f).2.last = g.last ∧
     (readGen env d now pt g f).2.lastTime = g.lastTime ∧ (readGen env d now pt g f).2.saved = g.saved := by
   unfold readGen
   simp [hc, h]
 
-theorem readGen_nofail (env : Env H S V) (d : Bool) (now : Int) (pt : PType) (g : Gen S V) (f : Bool)
+theorem readGen_nofail (env : Env H S V) (d : Bool) (now : TimeV) (pt : PType) (g : Gen S V) (f : Bool)
     (h : (if willCall d now g f then g.failsNow else none) = none) :
     readGen env d now pt g f =
       ((if f then .ok (.val (produceValue env d now g f).1) else validateRead pt (produceValue env d now g f).1),
@@ -111,9 +111,10 @@ theorem exitCtx_frame (rw : Res V × World S V) :
   · simp
   · split <;> simp
 
-theorem exitCtx_clock (rw : Res V × World S V) (t s : Int) (u : Option Int) (rest : List (Int × Int × Option Int))
+theorem exitCtx_clock (rw : Res V × World S V) (t : TimeV) (s : Int) (u : Option Int) (rest : List (TimeV × Int × Option Int))
     (h : rw.2.clock.pushed = (t, s, u) :: rest) :
-    (exitCtx rw).2.clock = { time := t, timestep := s, untl := u, pushed := rest, inContext := some (!rest.isEmpty) } ∧
+    (exitCtx rw).2.clock = { rw.2.clock with time := t, timestep := s, untl := u, pushed := rest,
+                                             inContext := some (!rest.isEmpty) } ∧
     (exitCtx rw).1 = (match rw.1 with
       | .raised .stopIteration => .ok .unit
       | .raised e => .raised e
@@ -134,6 +135,7 @@ mutual
 theorem runOp_pushed (env : Env H S V) : ∀ (o : Op) (w : World S V),
     (runOp env o w).2.clock.pushed = w.clock.pushed ∧ (runOp env o w).2.dynTD = w.dynTD
   | .setTime _, _ => by simp [runOp]
+  | .setTimeType _ _, _ => by simp [runOp]
   | .advance _, _ => by simp [runOp]
   | .setStep _, _ => by simp [runOp]
   | .setUntil _, _ => by simp [runOp]
@@ -174,16 +176,16 @@ the placeholder `(None, _NO_TIME)` or `(f t, t)` -/
 
 /-- the function of time a generator computes, if it is one: `t ↦ draw (reseed (hash name seed t))`
 for a time-dependent random distribution, the same at the sample time for a `TimeSampledFn` -/
-def GenKind.timeFn (env : Env H S V) : GenKind → Option (Int → V)
+def GenKind.timeFn (env : Env H S V) : GenKind → Option (TimeV → V)
   | .td n s => some (env.tdVal n s)
   | .sampled n s p o => some (fun t => env.tdVal n s (sampleTime t p o))
   | .stream _ => none
 
-def CacheOK (f : Int → V) (c : Option V × Option Int) : Prop :=
+def CacheOK (f : TimeV → V) (c : Option V × Option TimeV) : Prop :=
   (∃ t, c.2 = some t ∧ c.1 = some (f t)) ∨ (c.1 = none ∧ c.2 = none)
 
 /-- `GenOK` on the four fields it depends on -/
-def GenOK' (env : Env H S V) (k : GenKind) (l : Option V) (t : Option Int) (sv : List (Option V × Option Int)) : Prop :=
+def GenOK' (env : Env H S V) (k : GenKind) (l : Option V) (t : Option TimeV) (sv : List (Option V × Option TimeV)) : Prop :=
   match k.timeFn env with
   | some f => CacheOK f (l, t) ∧ ∀ c ∈ sv, CacheOK f c
   | none => True
@@ -217,7 +219,7 @@ theorem GenOK_push (env : Env H S V) (g : Gen S V) (h : GenOK env g) : GenOK env
     try simp only [hf]
     try trivial
 
-theorem produce_val (env : Env H S V) (g : Gen S V) (now : Int) (f : Int → V)
+theorem produce_val (env : Env H S V) (g : Gen S V) (now : TimeV) (f : TimeV → V)
     (hk : g.kind.timeFn env = some f) : (g.produce env now).1 = f now := by
   unfold Gen.produce
   cases hg : g.kind <;> simp only [hg, GenKind.timeFn, Option.some.injEq] at hk ⊢
@@ -225,11 +227,11 @@ theorem produce_val (env : Env H S V) (g : Gen S V) (now : Int) (f : Int → V)
   · rw [← hk]; rfl
   · simp at hk
 
-theorem produce_val_td (env : Env H S V) (g : Gen S V) (now : Int) (n : String) (s : Int)
+theorem produce_val_td (env : Env H S V) (g : Gen S V) (now : TimeV) (n : String) (s : Int)
     (hk : g.kind = .td n s) : (g.produce env now).1 = env.tdVal n s now :=
   produce_val env g now _ (by rw [hk]; rfl)
 
-theorem GenOK_produce (env : Env H S V) (now : Int) (g : Gen S V) (f : Bool) (h : GenOK env g) :
+theorem GenOK_produce (env : Env H S V) (now : TimeV) (g : Gen S V) (f : Bool) (h : GenOK env g) :
     GenOK env (produceValue env true now g f).2 := by
   unfold produceValue
   simp only [Bool.not_true, Bool.false_eq_true, if_false]
@@ -246,7 +248,7 @@ theorem GenOK_produce (env : Env H S V) (now : Int) (g : Gen S V) (f : Bool) (h 
       try simp only [hf]
   · exact h
 
-theorem GenOK_readGen (env : Env H S V) (now : Int) (pt : PType) (g : Gen S V) (f : Bool) (h : GenOK env g) :
+theorem GenOK_readGen (env : Env H S V) (now : TimeV) (pt : PType) (g : Gen S V) (f : Bool) (h : GenOK env g) :
     GenOK env (readGen env true now pt g f).2 := by
   unfold readGen
   split
@@ -282,7 +284,7 @@ theorem pushGens_ok (env : Env H S V) : ∀ (gs : List Nat) (hp : List (Gen S V)
     · rename_i x hx
       exact pushGens_ok env gs _ (HeapOK_set env hp g _ h (GenOK_push env x (HeapOK_get env hp g x h hx)))
 
-theorem GenOK_pop (env : Env H S V) (x : Gen S V) (l : Option V) (t : Option Int) (rest : List (Option V × Option Int))
+theorem GenOK_pop (env : Env H S V) (x : Gen S V) (l : Option V) (t : Option TimeV) (rest : List (Option V × Option TimeV))
     (h : GenOK env x) (hs : x.saved = (l, t) :: rest) :
     GenOK env { x with last := l, lastTime := t, saved := rest } := by
   show GenOK' env x.kind l t rest
@@ -371,6 +373,7 @@ mutual
 theorem runOp_heapOK (env : Env H S V) : ∀ (o : Op) (w : World S V),
     w.dynTD = true → HeapOK env w.gens → HeapOK env (runOp env o w).2.gens
   | .setTime _, _, _, h => by simpa [runOp] using h
+  | .setTimeType _ _, _, _, h => by simpa [runOp] using h
   | .advance _, _, _, h => by simpa [runOp] using h
   | .setStep _, _, _, h => by simpa [runOp] using h
   | .setUntil _, _, _, h => by simpa [runOp] using h
@@ -441,10 +444,10 @@ theorem pushGens_get : ∀ (gs : List Nat) (hp : List (Gen S V)) (x : Nat),
       · simp [List.getElem?_set_ne hx, List.count_cons, hx]
 
 /-- what `_state_pop` leaves in a generator: the pair on top of the stack -/
-def Gen.restore (c : Option V × Option Int) (s : List (Option V × Option Int)) (g : Gen S V) : Gen S V :=
+def Gen.restore (c : Option V × Option TimeV) (s : List (Option V × Option TimeV)) (g : Gen S V) : Gen S V :=
   { g with last := c.1, lastTime := c.2, saved := s }
 
-theorem popGens_get (c : Nat → Option V × Option Int) (s : Nat → List (Option V × Option Int)) :
+theorem popGens_get (c : Nat → Option V × Option TimeV) (s : Nat → List (Option V × Option TimeV)) :
     ∀ (gs : List Nat) (hp : List (Gen S V)),
     (∀ x ∈ gs, ∀ y, hp[x]? = some y → y.saved = List.replicate (gs.count x) (c x) ++ s x) →
     (popGens gs hp).1 = .ok .unit ∧
@@ -547,6 +550,7 @@ mutual
 theorem runOp_shape (env : Env H S V) : ∀ (o : Op) (w : World S V),
     neutralOp o = true → SameShape w (runOp env o w).2
   | .setTime _, w, _ => by simp only [runOp]; exact ⟨rfl, rfl, fun _ => rfl⟩
+  | .setTimeType _ _, w, _ => by simp only [runOp]; exact ⟨rfl, rfl, fun _ => rfl⟩
   | .advance _, w, _ => by simp only [runOp]; exact ⟨rfl, rfl, fun _ => rfl⟩
   | .setStep _, w, _ => by simp only [runOp]; exact ⟨rfl, rfl, fun _ => rfl⟩
   | .setUntil _, w, _ => by simp only [runOp]; exact ⟨rfl, rfl, fun _ => rfl⟩
@@ -590,6 +594,7 @@ def stripOp : Op → List Op
   | .inspect _ _ => []
   | .ctx b => [.ctx (stripOps b)]
   | .setTime t => [.setTime t]
+  | .setTimeType t tt => [.setTimeType t tt]
   | .advance d => [.advance d]
   | .setStep s => [.setStep s]
   | .setUntil u => [.setUntil u]
@@ -636,6 +641,7 @@ theorem strip_op (env : Env H S V) : ∀ (o : Op) (rest : List Op) (w : World S 
     have ih := strip_ops env b { w with clock := w.clock.enter } hb
     simp only [stripOp, List.cons_append, List.nil_append, runOps, runOp, ih]
   | .setTime _, _, _, _ => rfl
+  | .setTimeType _ _, _, _, _ => rfl
   | .advance _, _, _, _ => rfl
   | .setStep _, _, _, _ => rfl
   | .setUntil _, _, _, _ => rfl
